@@ -101,6 +101,75 @@ func (s *Schema) T(name string) *Type {
 }
 
 // UsesAny / HasKind: feature probes (the generator supports no enum, Any or listpairs).
+// KeyStrings are the two keys the enumerated values of map type t use. For a key type other than
+// String they come from the first two values of the key type: a key that is a string at type level
+// (an enum member) keys the typed value by that string and the representation by its representation
+// string; a key that is not (a struct with a string representation) keys both by the representation string.
+func (s *Schema) KeyStrings(t *Type) []string {
+	if t.KeyType == "" || t.KeyType == "String" {
+		return []string{"a", "b"}
+	}
+	kt := s.T(t.KeyType)
+	var out []string
+	for _, kv := range s.Values(kt, 3) {
+		if r, ok := s.Repr(kt, kv); ok && r.K == ref.KString {
+			k := r.S
+			if kv.K == ref.KString {
+				k = kv.S // a key that is a string at type level too (an enum member) keys the type-level view by that
+			}
+			dup := false
+			for _, o := range out {
+				if o == k {
+					dup = true
+				}
+			}
+			if !dup {
+				out = append(out, k)
+			}
+		}
+		if len(out) == 2 {
+			return out
+		}
+	}
+	panic("rs: key type " + t.KeyType + " has fewer than two string-represented values")
+}
+
+// ComplexKeys: t (or a type it contains) is a map whose key type is not String. How such a key is
+// supplied to the *type-level* builder is not something the schema documents pin down (the
+// reflection engine wants the key assembled as the struct it is, generated code takes its string
+// form), so type-level feeding of these types is outside the enumerated space; their views, the
+// representation builder and the codecs are inside it.
+func (s *Schema) ComplexKeys(t *Type) bool {
+	seen := map[string]bool{}
+	var rec func(t *Type) bool
+	rec = func(t *Type) bool {
+		if t == nil || seen[t.Name] {
+			return false
+		}
+		seen[t.Name] = true
+		if t.Kind == TMap && t.KeyType != "" && t.KeyType != "String" {
+			if k := s.T(t.KeyType).Kind; k == TStruct || k == TUnion {
+				return true
+			}
+		}
+		for _, f := range t.Fields {
+			if rec(s.T(f.Type)) {
+				return true
+			}
+		}
+		for _, m := range t.Members {
+			if rec(s.T(m)) {
+				return true
+			}
+		}
+		if t.ValType != "" && rec(s.T(t.ValType)) {
+			return true
+		}
+		return false
+	}
+	return rec(t)
+}
+
 func (s *Schema) Generatable() bool {
 	for _, n := range s.Order {
 		t := s.Types[n]
@@ -372,15 +441,23 @@ func (s *Schema) Repr(t *Type, v ref.Val) (ref.Val, bool) {
 	case TMap:
 		o := ref.Map()
 		for _, e := range v.M {
+			rk := e.K
+			if t.KeyType != "" && t.KeyType != "String" && s.T(t.KeyType).Kind == TEnum {
+				kr, ok := s.Repr(s.T(t.KeyType), ref.Str(e.K))
+				if !ok || kr.K != ref.KString {
+					return ref.Val{}, false
+				}
+				rk = kr.S
+			}
 			if e.V.K == ref.KNull {
-				o.M = append(o.M, e)
+				o.M = append(o.M, ref.Entry{K: rk, V: e.V})
 				continue
 			}
 			r, ok := s.Repr(s.T(t.ValType), e.V)
 			if !ok {
 				return ref.Val{}, false
 			}
-			o.M = append(o.M, ref.Entry{K: e.K, V: r})
+			o.M = append(o.M, ref.Entry{K: rk, V: r})
 		}
 		return o, true
 	case TList:
@@ -436,6 +513,10 @@ func (s *Schema) Values(t *Type, depth int) []ref.Val {
 					}
 				}
 				c = keep
+				if s.T(f.Type).Kind == TString {
+					// the general string alphabet leaves one joinable string; a second one makes the fields tell apart
+					c = append(c, ref.Str("b"))
+				}
 			}
 			if f.Nullable {
 				c = append(c, ref.Null())
@@ -484,7 +565,7 @@ func (s *Schema) Values(t *Type, depth int) []ref.Val {
 			}
 			elems = append(elems, ref.Null())
 		}
-		keys := []string{"a", "b"}
+		keys := s.KeyStrings(t)
 		var out []ref.Val
 		mk := func(es []ref.Val) ref.Val {
 			if t.Kind == TList {
@@ -513,7 +594,7 @@ func (s *Schema) Values(t *Type, depth int) []ref.Val {
 		}
 		if t.Kind == TMap && len(elems) > 0 {
 			// the other insertion order of two keys
-			m := ref.Map(ref.E("b", elems[0]), ref.E("a", elems[len(elems)-1]))
+			m := ref.Map(ref.E(keys[1], elems[0]), ref.E(keys[0], elems[len(elems)-1]))
 			out = append(out, m)
 		}
 		return out
@@ -754,6 +835,11 @@ func (s *Schema) acceptType(t *Type, in ref.Val) (ref.Val, string) {
 				return ref.Val{}, "repeated-key"
 			}
 			seen[e.K] = true
+			if t.KeyType != "" && t.KeyType != "String" && s.T(t.KeyType).Kind == TEnum {
+				if _, rej := s.AcceptType(s.T(t.KeyType), ref.Str(e.K)); rej != "" {
+					return ref.Val{}, "bad-key:" + rej
+				}
+			}
 			if e.V.K == ref.KNull {
 				if !t.ValNullable {
 					return ref.Val{}, "null-not-nullable"
@@ -1005,18 +1091,29 @@ func (s *Schema) acceptRepr(t *Type, in ref.Val) (ref.Val, string) {
 				return ref.Val{}, "repeated-key"
 			}
 			seen[e.K] = true
+			tk := e.K
+			if t.KeyType != "" && t.KeyType != "String" {
+				// the key string must be a representation of a value of the key type
+				kv, rej := s.AcceptRepr(s.T(t.KeyType), ref.Str(e.K))
+				if rej != "" {
+					return ref.Val{}, "bad-key:" + rej
+				}
+				if kv.K == ref.KString {
+					tk = kv.S
+				}
+			}
 			if e.V.K == ref.KNull {
 				if !t.ValNullable {
 					return ref.Val{}, "null-not-nullable"
 				}
-				o.M = append(o.M, e)
+				o.M = append(o.M, ref.Entry{K: tk, V: e.V})
 				continue
 			}
 			ev, rej := s.AcceptRepr(s.T(t.ValType), e.V)
 			if rej != "" {
 				return ref.Val{}, rej
 			}
-			o.M = append(o.M, ref.Entry{K: e.K, V: ev})
+			o.M = append(o.M, ref.Entry{K: tk, V: ev})
 		}
 		return o, ""
 	case TList:
